@@ -121,13 +121,13 @@ def guarded_site_sessions(ctx, vh, quick):
     nets = [("material", 1), ("small", 2), ("big", 3)]
     sessions, st = [], {"late_escape_positions": 0, "zugzwang_positions": 0, "zugzwang_without_own_mate": 0, "roots": 0}
     # (a)
-    c = valid(threat_positions(r, 14000 if quick else 150000))
+    c = valid(threat_positions(r, 14000 if quick else 80000))
     es = vlib.run_lines(vh, [f"mate esc 1 20000 {f}" for f in c])[1]
     hits = []
     for f, e in zip(c, es):
         t = e.split()
         if len(t) >= 6 and t[0] == "esc" and t[4] == "1" and int(t[2]) >= 5 and 1 <= int(t[3]) <= 2 and all(m.endswith("q") for m in t[6:]): hits.append(f)
-    hits = hits[:40 if quick else 600]
+    hits = hits[:40 if quick else 250]
     st["late_escape_positions"] = len(hits)
     jobs = []
     for f, ps in zip(hits, preds(hits)):
@@ -137,7 +137,7 @@ def guarded_site_sessions(ctx, vh, quick):
             jobs += [(root, f"go depth {d}" + ("!" if r.random() < 0.7 else "")) for d in (2, 3, 4, 5)]
     for i in range(0, len(jobs), 40): sessions.append((nets[(i // 40) % 3], {} if (i // 40) % 4 else {"Hash": 1}, jobs[i:i + 40]))
     # (b)
-    c = valid(zug_positions(r, 30000 if quick else 400000))
+    c = valid(zug_positions(r, 30000 if quick else 150000))
     hits, strict = [], set()
     for m in (1, 2):
         zs = vlib.run_lines(vh, [f"mate zug {m} 20000 {f}" for f in c])[1]
@@ -146,7 +146,7 @@ def guarded_site_sessions(ctx, vh, quick):
             if z == "zug 1 0 1": strict.add(f)
     hits = list(dict.fromkeys(hits))
     hits.sort(key=lambda f: f not in strict)          # those without an equally fast own mate first
-    hits = hits[:110 if quick else 1200]
+    hits = hits[:110 if quick else 500]
     st["zugzwang_positions"], st["zugzwang_without_own_mate"] = len(hits), sum(1 for f in hits if f in strict)
     def passed(f):
         t = f.split(); t[1] = "b" if t[1] == "w" else "w"; t[3] = "-"; t[4] = "0"; return " ".join(t)
@@ -274,7 +274,7 @@ def run(ctx):
         xlate.report(ctx, xr)
         return
     # ---- candidate positions and classification by the (untrusted) solver
-    ncand = 2500 if quick else 60000
+    ncand = 2500 if quick else 30000
     cands = sparse_endgames(r, ncand // 2) + chessgen.synthetic(r, ncand // 4) + chessgen.games(ctx, 10 if quick else 200, 200)[-ncand // 4:]
     rc, fo, _ = vlib.run_lines(vh, [f"chess fen {f}" for f in cands])
     cands = list(dict.fromkeys(o[3:] for o in fo if o.startswith("ok ")))
@@ -286,7 +286,7 @@ def run(ctx):
             ctx.violation(f"mate-in-one oracle: harness solver says {a}, Lean specification says {b} on `{f}`", {"kind": "correspondence", "input": [f]}, no_input=True); break
     mate1 = [f for f, b in zip(cands, m1l) if b == "1"]
     # mate-in-one positions of the rare move classes (promotion, capture-promotion, castling, en passant, discovered check)
-    rare = chessgen.mate1_candidates(r, 30000 if quick else 400000)
+    rare = chessgen.mate1_candidates(r, 30000 if quick else 200000)
     rc, fo2, _ = vlib.run_lines(vh, [f"chess fen {f}" for f in rare])
     rare = list(dict.fromkeys(o[3:] for o in fo2 if o.startswith("ok ")))
     # classification by the Lean specification (not by the engine's own move generator), in parallel
@@ -303,12 +303,12 @@ def run(ctx):
                     byclass.setdefault(chessgen.move_class(f, m), []).append(f)
     rare_sel = []
     for cls, fl in sorted(byclass.items()):
-        r.shuffle(fl); rare_sel += fl[:(14 if quick else 300) if cls not in ("quiet", "capture") else (4 if quick else 50)]
+        r.shuffle(fl); rare_sel += fl[:(14 if quick else 100) if cls not in ("quiet", "capture") else (4 if quick else 30)]
     ctx.cov["mate1_classes"] = {k: len(v) for k, v in sorted(byclass.items())}
     ctx.log(f"classified {len(rare)} rare-class candidates")
     mate1 = rare_sel + mate1
     rest = [f for f, b in zip(cands, m1l) if b == "0"]
-    sub = rest[:450 if quick else 40000]
+    sub = rest[:450 if quick else 15000]
     import concurrent.futures as _cf2
     nch = 8
     with _cf2.ThreadPoolExecutor(nch) as ex:       # the solver is single-threaded: split the classification over processes
@@ -322,10 +322,10 @@ def run(ctx):
     few = [f for f in rest if sum(1 for c in f.split()[0] if c.isalpha()) <= 4 and not any(c in "Pp" for c in f.split()[0])]
     rc, dvl, _ = vlib.run_lines(vh, [f"dtm of {f}" for f in few])
     longm = [f for f, v in zip(few, dvl) if v.startswith("win") and 4 <= int(v.split()[1]) <= 12]
-    r.shuffle(longm); longm = longm[:24 if quick else 1500]
+    r.shuffle(longm); longm = longm[:24 if quick else 400]
     ctx.cov["long_mate_roots"] = len(longm)
     r.shuffle(mates23); r.shuffle(nomate)
-    n1, n23, n0 = (60, 60, 25) if quick else (2500, 2500, 600)
+    n1, n23, n0 = (60, 60, 25) if quick else (800, 800, 250)
     mate1, mates23, nomate = mate1[:n1 + len(rare_sel)], mates23[:n23], nomate[:n0]
     ctx.cov["position_classes"] = {"candidates": len(cands), "mate_in_1": len(mate1), "mate_in_2_or_3": len(mates23), "no_mate_within_3": len(nomate)}
     # ---- engine runs
@@ -340,13 +340,13 @@ def run(ctx):
             jobs_by_set[i].append((f, f"go depth {d}!")); m1_jobs.add((f, f"go depth {d}"))
     for f in longm:
         i = r.randrange(len(optsets))
-        for d in r.sample([7, 8, 9, 10, 11, 12] if quick else [8, 10, 12, 14, 16], 2 if quick else 4):
+        for d in r.sample([7, 8, 9, 10, 11, 12] if quick else [8, 9, 10, 11, 12, 13], 2 if quick else 3):
             jobs_by_set[i].append((f, f"go depth {d}" + ("!" if r.random() < 0.5 else "")))
     # baits: a check answered only by capturing the checker with a more valuable piece — no mate, whatever a pruned quiescence thinks
-    bc = chessgen.recapture_baits(r, 400 if quick else 12000)
+    bc = chessgen.recapture_baits(r, 400 if quick else 5000)
     rc, fo3, _ = vlib.run_lines(vh, [f"chess fen {f}" for f in bc])
     baits = bait_filter(list(dict.fromkeys(o[3:] for o in fo3 if o.startswith("ok "))))
-    r.shuffle(baits); baits = baits[:40 if quick else 1500]
+    r.shuffle(baits); baits = baits[:40 if quick else 500]
     ctx.cov["recapture_baits"] = len(baits)
     for f, m in baits:
         i = r.randrange(len(optsets))
@@ -356,7 +356,7 @@ def run(ctx):
         i = r.randrange(len(optsets))
         men = sum(1 for c in f.split()[0] if c.isalpha())
         depths = [2, 3, 4, 5, 6, 7, 8, 10, 12, 14] if men <= 5 else [2, 3, 4, 5, 6, 7, 8] if men <= 10 else [2, 3, 4, 5, 6]
-        for d in r.sample(depths, 2 if quick else 4):
+        for d in r.sample(depths, 2 if quick else 3):
             jobs_by_set[i].append((f, f"go depth {d}" + ("!" if r.random() < 0.5 else "")))
     sessions = []
     for i, o in enumerate(optsets):
